@@ -242,6 +242,21 @@ func (h *handler) probe(c *projgen.Conc, tkey string, tst *projgen.PState, label
 	}
 	hs2, _ := projgen.HashTree(c.Root, isGo)
 	d := projgen.DiffHashes(hs, hs2)
+	// by design (and by the C19 statement) the WARNING block is the content of the last run only:
+	// a resolver file that merely lost its trailing block is not a change of the kind C18 forbids
+	if len(d) > 0 {
+		var rest []string
+		for _, f := range d {
+			after, err := os.ReadFile(filepath.Join(c.Root, f))
+			if before, ok := post[f]; ok && err == nil && strings.Contains(filepath.Base(f), "resolver") && onlyWarnBlockRemoved(before, after) {
+				atomic.AddInt64(&h.warnOnly, 1)
+				h.c.Class("second-run-drops-warning-block:" + tst.Cfg.Rl)
+				continue
+			}
+			rest = append(rest, f)
+		}
+		d = rest
+	}
 	ge := h.g.GenerateEdge(tkey)
 	switch {
 	case out2.Class != "ok":
@@ -302,6 +317,15 @@ func hasRoot(s *projgen.PState) bool {
 }
 
 var reRootWarn = regexp.MustCompile(`(?s)\n// !!! WARNING !!!\n(//[^\n]*\n)+/\*\n\s*type \w+ struct\s*\{\}\n\*/\n$`)
+
+// onlyWarnBlockRemoved: after == before without its trailing WARNING block.
+func onlyWarnBlockRemoved(before, after []byte) bool {
+	i := bytes.Index(before, []byte("\n// !!! WARNING !!!\n"))
+	if i < 0 {
+		return false
+	}
+	return bytes.Equal(bytes.TrimSpace(before[:i]), bytes.TrimSpace(after))
+}
 
 // rootWarnAppended: after == before + a WARNING block holding only the root resolver type.
 func rootWarnAppended(before, after []byte) bool {
@@ -426,7 +450,7 @@ func main() {
 		}
 		mcDone <- r
 	}()
-	edgeCfg, nSteps, nRich := "MC_Project_edges_c18.cfg", 36, 6
+	edgeCfg, nSteps, nRich := "MC_Project_edges_c18.cfg", 22, 6
 	pairs := []string{"Query_f1", "T_g"}
 	h := &handler{c: c, variants: variantsQuick}
 	if thorough {
@@ -459,7 +483,7 @@ func main() {
 	var wg sync.WaitGroup
 	wg.Add(1)
 	go func() { defer wg.Done(); h.richSchemas(nRich, seed) }()
-	rep := &projgen.Replayer{G: g, H: h, Name: "c18", Seed: seed * 104729, Pairs: pairs, Files: []string{"a", "b"}, Workers: 4}
+	rep := &projgen.Replayer{G: g, H: h, Name: "c18", Seed: seed * 104729, Pairs: pairs, Files: []string{"a", "b"}, Workers: 3}
 	rep.Run(tries)
 	wg.Wait()
 	fmt.Printf("C18: %d Generate steps of replayed histories + %d feature-rich schemas; %d generator processes; %d second-run probes (%d without prediction, %d dropping only the WARNING block); mean generator time %.2fs  [%.0fs]\n",
